@@ -1398,7 +1398,6 @@ Proof.
   - intros j Hne. repeat split.
   - exact (ri_refs _ _ _ I id s Es).
   - exact (ri_stack _ _ _ I).
-  - exact (ri_single _ _ _ I).
 Qed.
 
 Lemma skipn_tail {A} (l : list A) : forall k x tl, skipn k l = x :: tl -> skipn (S k) l = tl.
@@ -1558,13 +1557,12 @@ Section Refine.
               unfold reg_get in Hs. destruct (nth_error (rg_spans r) c) as [[s'|]|]; try discriminate.
               reflexivity.
             + congruence. }
-        assert (Hsingle := ri_single _ _ _ I). rewrite (on_any_stack_single sym k Hsingle).
         destruct o as [s|]; cbn [is_some].
         + assert (Hs : reg_get r k = Some s) by (unfold reg_get; rewrite Eo; reflexivity).
           destruct (ri_refs _ _ _ I k s Hs) as [Hr Hpos]. cbn [excess] in Hr.
           destruct (live sym k) eqn:El; [reflexivity|]. cbn [orb].
-          destruct (on_stack (stk sym) k) eqn:Es; [reflexivity|]. cbn [orb].
-          apply Hchild. unfold sref in Hr. rewrite Es in Hr. unfold live in El. apply N.ltb_ge in El. lia.
+          destruct (on_any_stack sym k) eqn:Es; [reflexivity|]. cbn [orb].
+          apply Hchild. apply sref_zero_any in Es. unfold live in El. apply N.ltb_ge in El. lia.
         + assert (Hs : reg_get r k = None) by (unfold reg_get; rewrite Eo; reflexivity).
           destruct (ri_absent _ _ _ I k Hs) as (A & B & C).
           unfold live. rewrite A, B. cbn [N.ltb orb].
@@ -1690,16 +1688,16 @@ Section Steps.
   Notation sstep := (sub_step deliver sites ids).
   Notation spec := (spec_step f sites ids).
 
-  Lemma step_record sym a r st k vals :
+  Lemma step_record tid sym a r st k vals :
     sim sym a r st -> live sym k = true ->
-    exists r' st', sstep (r, st) (0%nat, ORecord k vals) = ROk (r', st') /\
-                   sim sym (spec a (0%nat, ORecord k vals)) r' st'.
+    exists r' st', sstep (r, st) (tid, ORecord k vals) = ROk (r', st') /\
+                   sim sym (spec a (tid, ORecord k vals)) r' st'.
   Proof.
     intros HS Hl. destruct (inv_live_present _ _ _ _ (sm_inv _ _ _ _ _ _ HS) Hl) as [s Hs].
     destruct (sm_span _ _ _ _ _ _ HS k s Hs) as (x & Hx & A & _).
     set (vs := from_value_set (cs_fields (as_meta x)) vals).
     destruct (payload_callback sym sym a r r st k s (as_record vs) (pl_record vs)
-                (fun r1 k st0 => deliver r1 0%nat (CbRecord k vals) st0) HS (same_shape_refl r)
+                (fun r1 k st0 => deliver r1 tid (CbRecord k vals) st0) HS (same_shape_refl r)
                 (sm_inv _ _ _ _ _ _ HS) eq_refl Hs) as (st' & E & HS').
     - intros y. split; reflexivity.
     - reflexivity.
@@ -1714,17 +1712,17 @@ Section Steps.
       unfold upd_span. rewrite Hx. reflexivity.
   Qed.
 
-  Lemma step_enter sym a r st k :
+  Lemma step_enter tid sym a r st k :
     sim sym a r st -> live sym k = true ->
-    exists r' st', sstep (r, st) (0%nat, OEnter k) = ROk (r', st') /\
-                   sim (mk_sym (ss_spans sym) (set_stack (ss_stacks sym) 0 (k :: stk sym)))
-                       (spec a (0%nat, OEnter k)) r' st'.
+    exists r' st', sstep (r, st) (tid, OEnter k) = ROk (r', st') /\
+                   sim (mk_sym (ss_spans sym) (set_stack (ss_stacks sym) tid (k :: stk sym tid)))
+                       (spec a (tid, OEnter k)) r' st'.
   Proof.
     intros HS Hl. pose proof (sm_inv _ _ _ _ _ _ HS) as I.
     destruct (inv_live_present _ _ _ _ I Hl) as [s Hs].
-    destruct (enter_ok sym r k I Hl) as (r1 & E1 & Hsh & I1).
+    destruct (enter_ok sym r tid k I Hl) as (r1 & E1 & Hsh & I1).
     destruct (payload_callback sym _ a r r1 st k s as_enter pl_enter
-                (fun r1 k st0 => deliver r1 0%nat (CbEnter k) st0) HS Hsh I1 eq_refl Hs) as (st' & E & HS').
+                (fun r1 k st0 => deliver r1 tid (CbEnter k) st0) HS Hsh I1 eq_refl Hs) as (st' & E & HS').
     - intros y. split; reflexivity.
     - reflexivity.
     - reflexivity.
@@ -1735,17 +1733,17 @@ Section Steps.
       + unfold spec_step. cbn [snd fst]. rewrite (sm_sym _ _ _ _ _ _ HS). exact HS'.
   Qed.
 
-  Lemma step_exit sym a r st k :
-    sim sym a r st -> live sym k = true -> on_stack (stk sym) k = true ->
-    exists r' st', sstep (r, st) (0%nat, OExit k) = ROk (r', st') /\
-                   sim (mk_sym (ss_spans sym) (set_stack (ss_stacks sym) 0 (remove_first (stk sym) k)))
-                       (spec a (0%nat, OExit k)) r' st'.
+  Lemma step_exit tid sym a r st k :
+    sim sym a r st -> live sym k = true -> on_stack (stk sym tid) k = true ->
+    exists r' st', sstep (r, st) (tid, OExit k) = ROk (r', st') /\
+                   sim (mk_sym (ss_spans sym) (set_stack (ss_stacks sym) tid (remove_first (stk sym tid) k)))
+                       (spec a (tid, OExit k)) r' st'.
   Proof.
     intros HS Hl Hon. pose proof (sm_inv _ _ _ _ _ _ HS) as I.
     destruct (inv_live_present _ _ _ _ I Hl) as [s Hs].
-    destruct (exit_ok deliver sym r st k I Hl Hon) as (r1 & E1 & Hsh & I1).
+    destruct (exit_ok deliver sym r st tid k I Hl Hon) as (r1 & E1 & Hsh & I1).
     destruct (payload_callback sym _ a r r1 st k s as_exit pl_exit
-                (fun r1 k st0 => deliver r1 0%nat (CbExit k) st0) HS Hsh I1 eq_refl Hs) as (st' & E & HS').
+                (fun r1 k st0 => deliver r1 tid (CbExit k) st0) HS Hsh I1 eq_refl Hs) as (st' & E & HS').
     - intros y. split; reflexivity.
     - reflexivity.
     - reflexivity.
@@ -1753,15 +1751,15 @@ Section Steps.
     - intros s1 st0 Hs1. cbn [layer_step]. unfold ctx_span. rewrite Hs1. reflexivity.
     - exists r1, st'. split.
       + unfold sub_step. cbn [fst snd].
-        destruct (reg_exit_pop r 0 k) as [rp fresh] eqn:Ep. rewrite E1. cbn [rbind]. exact E.
+        destruct (reg_exit_pop r tid k) as [rp fresh] eqn:Ep. rewrite E1. cbn [rbind]. exact E.
       + unfold spec_step. cbn [snd fst]. rewrite (sm_sym _ _ _ _ _ _ HS). exact HS'.
   Qed.
 
-  Lemma step_clone sym a r st k :
+  Lemma step_clone tid sym a r st k :
     sim sym a r st -> live sym k = true ->
-    exists r' st', sstep (r, st) (0%nat, OClone k) = ROk (r', st') /\
+    exists r' st', sstep (r, st) (tid, OClone k) = ROk (r', st') /\
                    sim (mk_sym (set_handles (ss_spans sym) k (handles sym k + 1)) (ss_stacks sym))
-                       (spec a (0%nat, OClone k)) r' st'.
+                       (spec a (tid, OClone k)) r' st'.
   Proof.
     intros HS Hl. pose proof (sm_inv _ _ _ _ _ _ HS) as I.
     destruct (clone_ok sym r k I Hl) as (s & Hs & E1 & I1).
@@ -1839,10 +1837,10 @@ Section Steps.
     - rewrite Hst. unfold build, build_span, build_event. rewrite H2, H3. reflexivity.
   Qed.
 
-  Lemma step_follows sym a r st k t :
+  Lemma step_follows tid sym a r st k t :
     sim sym a r st -> live sym k = true ->
-    exists r' st', sstep (r, st) (0%nat, OFollows k t) = ROk (r', st') /\
-                   sim sym (spec a (0%nat, OFollows k t)) r' st'.
+    exists r' st', sstep (r, st) (tid, OFollows k t) = ROk (r', st') /\
+                   sim sym (spec a (tid, OFollows k t)) r' st'.
   Proof.
     intros HS Hl. pose proof (sm_inv _ _ _ _ _ _ HS) as I.
     destruct (inv_live_present _ _ _ _ I Hl) as [s Hs].
@@ -1895,11 +1893,11 @@ Section Steps.
       destruct (inv_parent_present _ _ _ _ _ _ I Hs Hp) as [ps Hps]. unfold reg_present. rewrite Hps. reflexivity.
   Qed.
 
-  Lemma sim_event_parent sym a r st pk :
+  Lemma sim_event_parent tid sym a r st pk :
     sim sym a r st -> wf_parent sym pk = true ->
-    (match ctx_event_scope r 0 pk with Some scope => scope_find r key scope | None => None end)
-    = option_map (cap_rank f (a_spans a)) (attach f (a_spans a) (logical_parent sym 0 pk)) /\
-    (forall p, logical_parent sym 0 pk = Some p -> (p < List.length (a_spans a))%nat).
+    (match ctx_event_scope r tid pk with Some scope => scope_find r key scope | None => None end)
+    = option_map (cap_rank f (a_spans a)) (attach f (a_spans a) (logical_parent sym tid pk)) /\
+    (forall p, logical_parent sym tid pk = Some p -> (p < List.length (a_spans a))%nat).
   Proof.
     intros HS Hwf. pose proof (sm_inv _ _ _ _ _ _ HS) as I.
     assert (Hbound : forall c, reg_present r c = true -> (c < List.length (a_spans a))%nat).
@@ -1907,10 +1905,10 @@ Section Steps.
       rewrite (ri_len _ _ _ I) in Hs. rewrite (sm_len _ _ _ _ _ _ HS). exact Hs. }
     unfold ctx_event_scope, ctx_event_span, ctx_lookup_current, logical_parent.
     destruct pk as [| |j]; cbn [wf_parent] in Hwf.
-    - rewrite (current_ok _ _ I).
-      change (spec_current (stack_of (ss_stacks sym) 0)) with (first_outer (stk sym)).
-      destruct (first_outer (stk sym)) as [c|] eqn:Ec; cbn [option_map].
-      + apply first_outer_on_stack in Ec. destruct (inv_stack_present _ _ _ _ I Ec) as [s Hs].
+    - rewrite (current_ok _ _ tid I).
+      change (spec_current (stack_of (ss_stacks sym) tid)) with (first_outer (stk sym tid)).
+      destruct (first_outer (stk sym tid)) as [c|] eqn:Ec; cbn [option_map].
+      + apply first_outer_on_stack in Ec. destruct (inv_stack_present _ _ _ _ _ I Ec) as [s Hs].
         assert (Hp : reg_present r c = true) by (unfold reg_present; rewrite Hs; reflexivity).
         split; [apply (sim_scope_attach _ _ _ _ c HS Hp)|]. intros p E. injection E as <-. auto.
       + split; [reflexivity | discriminate].
@@ -1921,17 +1919,17 @@ Section Steps.
       intros p E. injection E as <-. auto.
   Qed.
 
-  Lemma step_event sym a r st cs pk vals meta :
+  Lemma step_event tid sym a r st cs pk vals meta :
     sim sym a r st -> nth_error sites cs = Some meta -> wf_parent sym pk = true ->
-    exists r' st', sstep (r, st) (0%nat, OEvent cs pk vals) = ROk (r', st') /\
-                   sim sym (spec a (0%nat, OEvent cs pk vals)) r' st'.
+    exists r' st', sstep (r, st) (tid, OEvent cs pk vals) = ROk (r', st') /\
+                   sim sym (spec a (tid, OEvent cs pk vals)) r' st'.
   Proof.
     intros HS Hcs Hwf. unfold sub_step, spec_step. cbn [fst snd layer_step]. rewrite Hcs.
     rewrite (sm_sym _ _ _ _ _ _ HS). cbn [sym_next snd].
     destruct (f meta) eqn:Ef; cbn [negb].
     2:{ exists r, st. split; [reflexivity|]. apply (sim_same sym a r st); auto. }
-    destruct (sim_event_parent _ _ _ _ pk HS Hwf) as [Hpar Hlp]. rewrite Hpar.
-    set (e := mk_aevent meta (logical_parent sym 0 pk) (from_value_set (cs_fields meta) vals)).
+    destruct (sim_event_parent tid _ _ _ _ pk HS Hwf) as [Hpar Hlp]. rewrite Hpar.
+    set (e := mk_aevent meta (logical_parent sym tid pk) (from_value_set (cs_fields meta) vals)).
     set (a' := mk_astate sym (a_spans a) (a_events a ++ [e])).
     pose proof (sm_st _ _ _ _ _ _ HS) as Hst. rewrite Hst.
     pose proof (build_new_event f (closedf r) a a' e eq_refl eq_refl) as Hb. cbn [ae_meta ae_values ae_lparent e] in Hb.
@@ -1954,11 +1952,11 @@ Section Steps.
   Lemma closedf_remove r k j : closedf (reg_remove r k) j = if Nat.eqb j k then true else closedf r j.
   Proof. unfold closedf, reg_present. rewrite reg_get_remove. destruct (Nat.eqb j k); reflexivity. Qed.
 
-  Lemma cascade sym' a : forall fuel r st k,
+  Lemma cascade tid sym' a : forall fuel r st k,
     (k < fuel)%nat -> reg_inv_ex sym' r (Some k) ->
     (forall j s, reg_get r j = Some s -> span_ok a j s) -> st = build f (closedf r) a ->
     reg_present r k = true ->
-    exists r' st', sub_try_close deliver fuel r st 0 k = ROk (r', st') /\ reg_inv sym' r' /\
+    exists r' st', sub_try_close deliver fuel r st tid k = ROk (r', st') /\ reg_inv sym' r' /\
       (forall j s, reg_get r' j = Some s -> span_ok a j s) /\ st' = build f (closedf r') a.
   Proof.
     induction fuel as [|fuel IH]; intros r st k Hk I Hok Hst Hp; [lia|].
@@ -1986,7 +1984,7 @@ Section Steps.
       { intros j s3 Hj. rewrite reg_get_remove in Hj. destruct (Nat.eqb j k); [discriminate|]. apply Hok. exact Hj. }
       assert (Hfin : forall st2, st2 = build f (closedf (reg_remove r k)) a ->
                 exists r' st', match rs_parent s with
-                               | Some p => sub_try_close deliver fuel (reg_remove r k) st2 0 p
+                               | Some p => sub_try_close deliver fuel (reg_remove r k) st2 tid p
                                | None => ROk (reg_remove r k, st2)
                                end = ROk (r', st') /\ reg_inv sym' r' /\
                   (forall j s', reg_get r' j = Some s' -> span_ok a j s') /\ st' = build f (closedf r') a).
@@ -2010,16 +2008,16 @@ Section Steps.
       split; [exact Hok1 | exact Hst1].
   Qed.
 
-  Lemma step_drop sym a r st k :
+  Lemma step_drop tid sym a r st k :
     sim sym a r st -> live sym k = true ->
-    exists r' st', sstep (r, st) (0%nat, ODrop k) = ROk (r', st') /\
+    exists r' st', sstep (r, st) (tid, ODrop k) = ROk (r', st') /\
                    sim (mk_sym (set_handles (ss_spans sym) k (handles sym k - 1)) (ss_stacks sym))
-                       (spec a (0%nat, ODrop k)) r' st'.
+                       (spec a (tid, ODrop k)) r' st'.
   Proof.
     intros HS Hl. pose proof (sm_inv _ _ _ _ _ _ HS) as I.
     destruct (inv_live_present _ _ _ _ I Hl) as [s Hs].
     set (sym' := mk_sym (set_handles (ss_spans sym) k (handles sym k - 1)) (ss_stacks sym)).
-    destruct (cascade sym' a (close_fuel r) r st k) as (r' & st' & E & I' & Hok' & Hst').
+    destruct (cascade tid sym' a (close_fuel r) r st k) as (r' & st' & E & I' & Hok' & Hst').
     - unfold close_fuel. apply reg_get_lt in Hs. lia.
     - apply drop_start; assumption.
     - exact (sm_span _ _ _ _ _ _ HS).
@@ -2035,26 +2033,26 @@ Section Steps.
   Qed.
 
   (** *** a new span *)
-  Lemma step_new_span sym a r st cs pk vals meta :
+  Lemma step_new_span tid sym a r st cs pk vals meta :
     sim sym a r st -> nth_error sites cs = Some meta -> wf_parent sym pk = true ->
-    exists r' st', sstep (r, st) (0%nat, ONewSpan cs pk vals) = ROk (r', st') /\
+    exists r' st', sstep (r, st) (tid, ONewSpan cs pk vals) = ROk (r', st') /\
                    sim (mk_sym (ss_spans sym ++ [mk_sspan cs 1]) (ss_stacks sym))
-                       (spec a (0%nat, ONewSpan cs pk vals)) r' st'.
+                       (spec a (tid, ONewSpan cs pk vals)) r' st'.
   Proof.
     intros HS Hcs Hwf. pose proof (sm_inv _ _ _ _ _ _ HS) as I.
     set (sym' := mk_sym (ss_spans sym ++ [mk_sspan cs 1]) (ss_stacks sym)).
     assert (Hn : reg_next r = List.length (a_spans a)).
     { rewrite (ri_len _ _ _ I), (sm_len _ _ _ _ _ _ HS). reflexivity. }
     set (raw := raw_of ids (reg_next r)).
-    destruct (new_span_ok sym r cs meta pk raw I Hwf) as (r1 & E1 & Hsh & Hlp & I2).
-    set (lp := match pk with PKRoot => None | PKExplicit j => Some j | PKCtx => first_outer (stk sym) end) in *.
-    assert (Elp : logical_parent sym 0 pk = lp).
+    destruct (new_span_ok sym r tid cs meta pk raw I Hwf) as (r1 & E1 & Hsh & Hlp & I2).
+    set (lp := match pk with PKRoot => None | PKExplicit j => Some j | PKCtx => first_outer (stk sym tid) end) in *.
+    assert (Elp : logical_parent sym tid pk = lp).
     { unfold logical_parent, lp. destruct pk; reflexivity. }
     set (new := mk_rspan meta raw lp 1 []) in *.
     set (r2 := reg_app r1 new) in *.
     set (x := mk_aspan meta raw lp (from_value_set (cs_fields meta) vals) 0 0 []).
     set (a' := mk_astate sym' (a_spans a ++ [x]) (a_events a)).
-    assert (Ea' : spec a (0%nat, ONewSpan cs pk vals) = a').
+    assert (Ea' : spec a (tid, ONewSpan cs pk vals) = a').
     { unfold spec_step. cbn [fst snd]. rewrite Hcs, (sm_sym _ _ _ _ _ _ HS), Elp. cbn [sym_next snd].
       unfold a', x, raw. rewrite Hn. reflexivity. }
     rewrite Ea'.
@@ -2170,48 +2168,47 @@ Section Steps.
   Qed.
 
   Lemma step_refine sym a r st o sym' :
-    sim sym a r st -> fst o = 0%nat -> wf_step true sites sym o = Some sym' ->
+    sim sym a r st -> wf_step true sites sym o = Some sym' ->
     exists r' st', sstep (r, st) o = ROk (r', st') /\ sim sym' (spec a o) r' st'.
   Proof.
-    intros HS Ht Hwf. destruct o as [tid op]. cbn in Ht. subst tid.
+    intros HS Hwf. destruct o as [tid op].
     unfold wf_step in Hwf. cbn [fst snd] in Hwf.
     destruct op as [cs pk vals | k vals | k | k | k | k | k t | cs pk vals].
     - destruct (wf_site_use sites KSpan cs vals && wf_parent sym pk) eqn:E; [|discriminate].
       injection Hwf as <-. apply andb_true_iff in E as [E1 E2]. unfold wf_site_use in E1.
       destruct (nth_error sites cs) as [meta|] eqn:Ecs; [|discriminate].
-      apply (step_new_span sym a r st cs pk vals meta HS Ecs E2).
+      apply (step_new_span tid sym a r st cs pk vals meta HS Ecs E2).
     - destruct (span_site sym k); [|discriminate].
       destruct (live sym k && wf_valset (site_fields sites n) vals) eqn:E; [|discriminate].
-      injection Hwf as <-. apply andb_true_iff in E as [E1 _]. apply (step_record sym a r st k vals HS E1).
+      injection Hwf as <-. apply andb_true_iff in E as [E1 _]. apply (step_record tid sym a r st k vals HS E1).
     - destruct (live sym k) eqn:E; [|discriminate]. injection Hwf as <-.
-      apply (step_enter sym a r st k HS E).
-    - destruct (live sym k && on_stack (stack_of (ss_stacks sym) 0) k) eqn:E; [|discriminate].
-      injection Hwf as <-. apply andb_true_iff in E as [E1 E2]. apply (step_exit sym a r st k HS E1 E2).
+      apply (step_enter tid sym a r st k HS E).
+    - destruct (live sym k && on_stack (stack_of (ss_stacks sym) tid) k) eqn:E; [|discriminate].
+      injection Hwf as <-. apply andb_true_iff in E as [E1 E2]. apply (step_exit tid sym a r st k HS E1 E2).
     - destruct (live sym k) eqn:E; [|discriminate]. injection Hwf as <-.
-      apply (step_clone sym a r st k HS E).
+      apply (step_clone tid sym a r st k HS E).
     - destruct (live sym k && (negb (handles sym k =? 1) || negb (on_any_stack sym k))) eqn:E; [|discriminate].
-      injection Hwf as <-. apply andb_true_iff in E as [E1 _]. apply (step_drop sym a r st k HS E1).
+      injection Hwf as <-. apply andb_true_iff in E as [E1 _]. apply (step_drop tid sym a r st k HS E1).
     - destruct (live sym k && match t with FLive j => live sym j | FStale raw => true && wf_raw_id raw end) eqn:E;
         [|discriminate].
-      injection Hwf as <-. apply andb_true_iff in E as [E1 _]. apply (step_follows sym a r st k t HS E1).
+      injection Hwf as <-. apply andb_true_iff in E as [E1 _]. apply (step_follows tid sym a r st k t HS E1).
     - destruct (wf_site_use sites KEvent cs vals && wf_parent sym pk) eqn:E; [|discriminate].
       injection Hwf as <-. apply andb_true_iff in E as [E1 E2]. unfold wf_site_use in E1.
       destruct (nth_error sites cs) as [meta|] eqn:Ecs; [|discriminate].
-      apply (step_event sym a r st cs pk vals meta HS Ecs E2).
+      apply (step_event tid sym a r st cs pk vals meta HS Ecs E2).
   Qed.
 
   Lemma steps_refine : forall ops sym a r st symf,
-    sim sym a r st -> forallb (fun o => Nat.eqb (fst o) 0) ops = true ->
+    sim sym a r st ->
     wf_steps true sites sym ops = Some symf ->
     exists r' st', sub_steps deliver sites ids (r, st) ops = ROk (r', st') /\
                    sim symf (fold_left spec ops a) r' st'.
   Proof.
-    induction ops as [|o ops IH]; intros sym a r st symf HS Ht Hwf; cbn [sub_steps fold_left wf_steps] in *.
+    induction ops as [|o ops IH]; intros sym a r st symf HS Hwf; cbn [sub_steps fold_left wf_steps] in *.
     - injection Hwf as <-. exists r, st. split; [reflexivity | exact HS].
-    - apply andb_true_iff in Ht as [Ht1 Ht2]. apply Nat.eqb_eq in Ht1.
-      destruct (wf_step true sites sym o) as [sym'|] eqn:Eo; [|discriminate].
-      destruct (step_refine sym a r st o sym' HS Ht1 Eo) as (r1 & st1 & E1 & HS1).
-      rewrite E1. cbn [rbind]. apply (IH sym' _ r1 st1 symf HS1 Ht2 Hwf).
+    - destruct (wf_step true sites sym o) as [sym'|] eqn:Eo; [|discriminate].
+      destruct (step_refine sym a r st o sym' HS Eo) as (r1 & st1 & E1 & HS1).
+      rewrite E1. cbn [rbind]. apply (IH sym' _ r1 st1 symf HS1 Hwf).
   Qed.
 End Steps.
 
@@ -2219,14 +2216,14 @@ End Steps.
     single-threaded program (stale follows-from targets allowed) the capture layer runs to completion
     and its storage is the storage the specification prescribes *)
 Theorem capture_refines_spec_key (f : cs_data -> bool) (key : N) (ids : list N) (p : prog) :
-  wf_prog_stale p -> single_threaded p = true ->
+  wf_prog_stale p ->
   exists r, sub_run (layer_step f key) ids p empty_storage = ROk (r, spec_storage f ids p).
 Proof.
-  intros Hwf Hst. unfold wf_prog_stale, wf_prog_stale_b, wf_prog_gen_b in Hwf.
+  intros Hwf. unfold wf_prog_stale, wf_prog_stale_b, wf_prog_gen_b in Hwf.
   apply andb_true_iff in Hwf as [_ Hwf]. unfold sym_run in Hwf.
   destruct (wf_steps true (p_sites p) sym_init (p_ops p)) as [symf|] eqn:E; [|discriminate].
   destruct (steps_refine f key (p_sites p) ids (p_ops p) sym_init a_init reg_init empty_storage symf
-              (sim_init f key) Hst E) as (r & st & Er & HS).
+              (sim_init f key) E) as (r & st & Er & HS).
   exists r. unfold sub_run. rewrite Er. f_equal. f_equal.
   rewrite (sm_st _ _ _ _ _ _ HS). unfold spec_storage, spec_run.
   apply build_closed_ext. intros k _. unfold closedf. rewrite (sim_open f key _ _ _ _ k HS). reflexivity.
@@ -2254,7 +2251,6 @@ Section Stacks.
   Variable ids : list N.
   Variable p : prog.
   Hypothesis Hwf : wf_prog_stale p.
-  Hypothesis Hst : single_threaded p = true.
 
   Let run {L} (d : reg -> nat -> lcallback -> L -> result (reg * L)) (l0 : L) :=
     sub_steps d (p_sites p) ids (reg_init, l0) (p_ops p).
@@ -2262,7 +2258,7 @@ Section Stacks.
   (** the empty stack: the Registry alone runs the program *)
   Lemma stack_nil_total : exists r, stack_run ids p [] = ROk (r, []).
   Proof.
-    destruct (capture_refines_spec_key (fun _ => true) 0 ids p Hwf Hst) as [ra Ea].
+    destruct (capture_refines_spec_key (fun _ => true) 0 ids p Hwf) as [ra Ea].
     unfold sub_run in Ea.
     destruct (tri_steps (list layer) cstorage cstorage stack_deliver
                 (layer_step (fun _ => true) 0) (layer_step (fun _ => true) 0) [] []
@@ -2294,7 +2290,7 @@ Section Stacks.
       destruct re; [|discriminate].
       cbn [stack_keys] in Hnd. inversion Hnd as [|? ? Hnotin Hnd']; subst.
       destruct (IH Hfresh Hnd') as (rb & restb & Eb & Hsb & Hkb & Hfb).
-      destruct (capture_refines_spec_key f k ids p Hwf Hst) as [ra Ea].
+      destruct (capture_refines_spec_key f k ids p Hwf) as [ra Ea].
       unfold stack_run, sub_run in *.
       set (RL := fun (l : list layer) (sta : cstorage) (lb : list layer) =>
                    l = LCapture f k sta :: lb /\ stack_keys lb = stack_keys rest).
@@ -2358,37 +2354,37 @@ End Stacks.
 
 (** the run, the symbolic end state and the simulation relation at the end of the run *)
 Lemma capture_run_sim (f : cs_data -> bool) (key : N) (ids : list N) (p : prog) :
-  wf_prog_stale p -> single_threaded p = true ->
+  wf_prog_stale p ->
   exists r st symf,
     sub_run (layer_step f key) ids p empty_storage = ROk (r, st) /\ sym_run true p = Some symf /\
     sim f key symf (spec_run f ids p) r st.
 Proof.
-  intros Hwf Hst. unfold wf_prog_stale, wf_prog_stale_b, wf_prog_gen_b in Hwf.
+  intros Hwf. unfold wf_prog_stale, wf_prog_stale_b, wf_prog_gen_b in Hwf.
   apply andb_true_iff in Hwf as [_ Hwf]. unfold sym_run in *.
   destruct (wf_steps true (p_sites p) sym_init (p_ops p)) as [symf|] eqn:E; [|discriminate].
   destruct (steps_refine f key (p_sites p) ids (p_ops p) sym_init a_init reg_init empty_storage symf
-              (sim_init f key) Hst E) as (r & st & Er & HS).
+              (sim_init f key) E) as (r & st & Er & HS).
   exists r, st, symf. unfold sub_run. auto.
 Qed.
 
 Theorem capture_refines_spec (f : cs_data -> bool) (ids : list N) (p : prog) :
-  wf_prog_stale p -> single_threaded p = true ->
+  wf_prog_stale p ->
   storage_of (layer_run f ids p) = Some (spec_storage f ids p).
 Proof.
-  intros Hwf Hst. destruct (capture_refines_spec_key f layer_key0 ids p Hwf Hst) as [r E].
+  intros Hwf. destruct (capture_refines_spec_key f layer_key0 ids p Hwf) as [r E].
   unfold layer_run. rewrite E. reflexivity.
 Qed.
 
 Theorem capture_total (f : cs_data -> bool) (ids : list N) (p : prog) :
-  wf_prog_stale p -> single_threaded p = true ->
+  wf_prog_stale p ->
   exists r st, layer_run f ids p = ROk (r, st).
 Proof.
-  intros Hwf Hst. destruct (capture_refines_spec_key f layer_key0 ids p Hwf Hst) as [r E].
+  intros Hwf. destruct (capture_refines_spec_key f layer_key0 ids p Hwf) as [r E].
   exists r, (spec_storage f ids p). exact E.
 Qed.
 
 Theorem capture_run_invariants (f : cs_data -> bool) (ids : list N) (p : prog) :
-  wf_prog_stale p -> single_threaded p = true ->
+  wf_prog_stale p ->
   exists r st symf,
     layer_run f ids p = ROk (r, st) /\ sym_run true p = Some symf /\
     reg_inv symf r /\
@@ -2398,7 +2394,7 @@ Theorem capture_run_invariants (f : cs_data -> bool) (ids : list N) (p : prog) :
     (forall k, reg_present r k = a_open (spec_run f ids p) k) /\
     st = build f (fun k => negb (reg_present r k)) (spec_run f ids p).
 Proof.
-  intros Hwf Hst. destruct (capture_run_sim f layer_key0 ids p Hwf Hst) as (r & st & symf & E & Es & HS).
+  intros Hwf. destruct (capture_run_sim f layer_key0 ids p Hwf) as (r & st & symf & E & Es & HS).
   exists r, st, symf. split; [exact E|]. split; [exact Es|]. split; [exact (sm_inv _ _ _ _ _ _ HS)|].
   split; [|split].
   - intros k s Hs. destruct (sm_span _ _ _ _ _ _ HS k s Hs) as (x & _ & Hm & _ & _ & He).
@@ -2408,10 +2404,10 @@ Proof.
 Qed.
 
 Theorem stack_total (ids : list N) (p : prog) (ls : list layer) :
-  wf_prog_stale p -> single_threaded p = true -> stack_fresh ls = true -> NoDup (stack_keys ls) ->
+  wf_prog_stale p -> stack_fresh ls = true -> NoDup (stack_keys ls) ->
   exists r ls', stack_run ids p ls = ROk (r, ls').
 Proof.
-  intros Hwf Hst Hf Hnd. destruct (stacks_refine ids p Hwf Hst ls Hf Hnd) as (r & ls' & E & _).
+  intros Hwf Hf Hnd. destruct (stacks_refine ids p Hwf ls Hf Hnd) as (r & ls' & E & _).
   exists r, ls'. exact E.
 Qed.
 
@@ -2420,12 +2416,12 @@ Lemma Forall2_map_spec {A B} (g : A -> B) (P : A -> B -> Prop) l :
 Proof. intros H. induction l; cbn; constructor; auto. Qed.
 
 Theorem layers_independent (ids : list N) (p : prog) (ls : list layer) :
-  wf_prog_stale p -> single_threaded p = true -> stack_fresh ls = true -> NoDup (stack_keys ls) ->
+  wf_prog_stale p -> stack_fresh ls = true -> NoDup (stack_keys ls) ->
   exists r ls', stack_run ids p ls = ROk (r, ls') /\
     Forall2 (fun filter st => storage_of (layer_run filter ids p) = Some st)
             (stack_filters ls) (stack_storages ls').
 Proof.
-  intros Hwf Hst Hf Hnd. destruct (stacks_refine ids p Hwf Hst ls Hf Hnd) as (r & ls' & E & Hs & _).
+  intros Hwf Hf Hnd. destruct (stacks_refine ids p Hwf ls Hf Hnd) as (r & ls' & E & Hs & _).
   exists r, ls'. split; [exact E|]. rewrite Hs. apply Forall2_map_spec.
   intros filter. apply capture_refines_spec; assumption.
 Qed.
